@@ -165,6 +165,27 @@ def function_call_arg(argkind, nargs):
     return ob
 
 
+BINOP_TEXTS = ['%s', '%r', '%5s|', 'x%sx', 'x']
+
+
+def binop_arg(argkind):
+    """A text operand combined (%, +, *) with a non-scalar operand, on either side: an expression error or plain data - in particular
+    no `<generator object ... at 0x...>` through printf-style formatting."""
+    def ob(ti: int, op: int, swap: bool) -> bool:
+        """
+        pre: 0 <= ti < 5 and 0 <= op < 3
+        post: _
+        """
+        from engine.ob import pick, flag
+        ti, op = pick(ti, 5), pick(op, 3)
+        other = ast.parse(ARG_KINDS[argkind], mode='eval').body
+        text = ast.Constant(value=BINOP_TEXTS[ti])
+        left, right = (other, text) if flag(swap) else (text, other)
+        r = _run(ast.BinOp(left=left, op=[ast.Mod(), ast.Add(), ast.Mult()][op], right=right), 'txn')
+        return post(r[0] == 'err' or is_safe(r[1]))
+    return ob
+
+
 def get_function(which):
     def ob(name: str) -> bool:
         """
@@ -418,6 +439,9 @@ def obligations(tier, seed):
         for na in (1, 2, 3):
             obs.append(Obligation(id=f'call-arg-{ak}-{na}', factory='function_call_arg', params={'argkind': ak, 'nargs': na}, timeout=to, group='function calls on non-scalar arguments',
                                   bounds=f'symbolic function name <= 13 ASCII chars applied to {ARG_KINDS[ak]!r}' + (' and %d text argument(s)' % (na - 1) if na > 1 else '')))
+    for ak in ARG_KINDS:
+        obs.append(Obligation(id=f'binop-arg-{ak}', factory='binop_arg', params={'argkind': ak}, timeout=to, group='function calls on non-scalar arguments',
+                              bounds=f'one of the texts {BINOP_TEXTS!r} combined by %, + or * with {ARG_KINDS[ak]!r}, either operand order (symbolic indices)'))
     for i in range(len(IMMUT_SHAPES)):
         obs.append(Obligation(id=f'immut-{i}', factory='immutability', params={'i': i}, timeout=to, group='evaluation leaves tree, transaction and rows unchanged',
                               bounds=f'{IMMUT_SHAPES[i]!r} evaluated twice; identity snapshot of every AST node field, transaction item and row item'))
